@@ -649,9 +649,10 @@ pub fn evaluate_ast(
                 PostfixOp::Factorial => {
                     let n = val.as_number()?;
                     if n >= 0.0 && n == (n as u64) as f64 {
-                        Ok(Number(
-                            (1..(n as u64) + 1).map(|x| x as f64).product::<f64>(),
-                        ))
+                        // every factorial from 171! on is infinite in doubles: stop multiplying there
+                        // (a huge operand would otherwise loop for ages, and `n + 1` overflows at 2^64)
+                        let upto = (n as u64).min(171);
+                        Ok(Number((1..=upto).map(|x| x as f64).product::<f64>()))
                     } else {
                         Err(RuntimeError::with_span(
                             "factorial only works on non-negative integers".to_string(),
